@@ -118,7 +118,20 @@ func main() {
 			cmd := exec.Command(self, "child", job, base+".json")
 			lf, _ := os.Create(base + ".log")
 			cmd.Stdout, cmd.Stderr = lf, lf
-			err := cmd.Run()
+			err := cmd.Start()
+			if err == nil {
+				waited := make(chan error, 1)
+				go func() { waited <- cmd.Wait() }()
+				select {
+				case err = <-waited:
+				case <-time.After(20 * time.Minute): // generous: a quick child takes seconds
+					cmd.Process.Kill()
+					<-waited
+					lf.Close()
+					rep.Inconclusive("worker for " + job + " did not finish within its watchdog")
+					return
+				}
+			}
 			lf.Close()
 			b, rerr := os.ReadFile(base + ".json")
 			if err != nil || rerr != nil {
@@ -390,7 +403,15 @@ func (w *worker) transports() {
 		h.ServeHTTP(rw, r)
 	})
 	ts := httptest.NewServer(wrapped)
-	defer ts.Close()
+	// Close waits for outstanding handlers; one that hangs (a finding) must not hang the worker
+	defer func() {
+		done := make(chan struct{})
+		go func() { ts.CloseClientConnections(); ts.Close(); close(done) }()
+		select {
+		case <-done:
+		case <-time.After(5 * time.Second):
+		}
+	}()
 	queries := []string{
 		`{ an { vid rs bo { vid rs } } }`,
 		`{ as(n: 3) { vid rs rbl { vid rs } } }`,
@@ -415,7 +436,33 @@ func (w *worker) transports() {
 							p.CancelAt = map[string]bool{clean.Invocations[len(clean.Invocations)/2]: true}
 						}
 					}
-					w.httpCase(ts.URL, id, q, tr, mode)
+					if w.cr.Counts["transport_hangs_observed"] >= 3 && mode == "server-cancel" {
+						w.count("cases_skipped_after_repeated_hangs", 1)
+						runs.Delete(id)
+						continue
+					}
+					timedOut := w.httpCase(ts.URL, id, q, tr, mode)
+					if timedOut {
+						// the response did not finish: if no resolver is inside user code and the handler is
+						// parked in gqlgen/generated frames twice in a row, it never will
+						for i := 0; i < 200 && run.Open() > 0; i++ {
+							time.Sleep(10 * time.Millisecond)
+						}
+						gs, stable := gdump.WaitGone(patterns, nil, w.ignore, 0, time.Second)
+						if run.Open() == 0 && len(gs) > 0 && stable {
+							for _, g := range gs {
+								w.ignore[g.ID] = true
+							}
+							w.cr.Violations = append(w.cr.Violations, violation{hangSig(gs) + "-over-" + tr, map[string]any{
+								"why": "every resolver returned but the " + tr + " response never finished (" + mode + "): stable blocked state in gqlgen/generated frames", "probe": w.name, "query": q, "goroutines": dumpText(gs)}})
+							w.count("transport_hangs_observed", 1)
+						} else {
+							w.cr.Inconcl = append(w.cr.Inconcl, "transport watchdog fired without a stable blocked state ("+tr+", "+mode+")")
+						}
+						runs.Delete(id)
+						w.cr.Evals++
+						continue
+					}
 					runs.Delete(id)
 					w.cr.Evals++
 					w.cr.Distinct = append(w.cr.Distinct, fmt.Sprintf("transport|%s|%d|%s|%s", w.name, qi, tr, mode))
@@ -454,12 +501,13 @@ func mustParse(q string) *ast.QueryDocument {
 }
 
 // httpCase sends one request over a raw TCP connection so that "disconnect" really closes it.
-func (w *worker) httpCase(base, id, q, tr, mode string) {
+// httpCase returns true when the server did not finish the response within the watchdog.
+func (w *worker) httpCase(base, id, q, tr, mode string) bool {
 	u, _ := url.Parse(base)
 	conn, err := net.DialTimeout("tcp", u.Host, 5*time.Second)
 	if err != nil {
 		w.cr.Inconcl = append(w.cr.Inconcl, "dial: "+err.Error())
-		return
+		return false
 	}
 	defer conn.Close()
 	body, _ := json.Marshal(map[string]any{"query": q})
@@ -478,16 +526,20 @@ func (w *worker) httpCase(base, id, q, tr, mode string) {
 		fmt.Fprintf(&req, "POST / HTTP/1.1\r\nHost: x\r\nX-Run: %s\r\nContent-Type: application/json\r\nAccept: %s\r\nConnection: close\r\nContent-Length: %d\r\n\r\n%s", id, accept, len(body), body)
 	}
 	conn.Write(req.Bytes())
-	conn.SetReadDeadline(time.Now().Add(20 * time.Second))
+	conn.SetReadDeadline(time.Now().Add(8 * time.Second))
 	if mode == "disconnect" {
 		// read the status line only, then hang up
 		br := bufio.NewReader(conn)
 		br.ReadString('\n')
 		conn.Close()
-		return
+		return false
 	}
-	n, _ := io.Copy(io.Discard, conn)
+	n, rerr := io.Copy(io.Discard, conn)
 	w.count("transport_bytes_read", n)
+	if ne, ok := rerr.(net.Error); ok && ne.Timeout() {
+		return true
+	}
+	return false
 }
 
 func (w *worker) wsCase(base string, round int) {
